@@ -75,6 +75,7 @@ fn main() {
                 std::process::exit(2)
             };
             refm::self_test();
+            c07::install_quiet_hook();
             let ctx = Ctx::new(id, tier, level);
             let r = std::panic::catch_unwind(std::panic::AssertUnwindSafe(|| explore(&ctx)));
             if r.is_err() {
